@@ -6,8 +6,10 @@ CONSTANTS
   MaxNow = 1000000
   EnvOps = {"stop", "kill", "drain", "fail", "busy", "abort"}
   VirtualClock = TRUE
+  Instant = FALSE
+  UnstartedKillsInterval = TRUE
 CONSTRAINT Progress
 INVARIANTS
-  AfterOnce AfterResult NeverEarly Exact NoDeliveryToDead HandledInOrder IntervalEnds Reasons
+  AfterOnce AfterResult NeverEarly Exact NoDeliveryToDead HandledInOrder IntervalEnds Reasons IntervalSurvivesStart
 POSTCONDITION Accepted
 CHECK_DEADLOCK FALSE
